@@ -96,6 +96,11 @@ Proof.
   intros H. destruct (wr_cases s f) as [[E _]|[k [_ E]]]; rewrite E in H; inversion H; subst; simpl; auto.
 Qed.
 
+Lemma wr_state2 s f s' out ok : wr s f = (s', out, ok) -> rxq s' = rxq s /\ scans s' = scans s.
+Proof.
+  intros H. destruct (wr_cases s f) as [[E _]|[k [_ E]]]; rewrite E in H; inversion H; subst; simpl; auto.
+Qed.
+
 Lemma wr2_out s f g : In g (snd (wr2 s f)) -> g = f.
 Proof.
   unfold wr2. destruct (wr s f) as [[s1 o] ok] eqn:E. simpl. eapply wr_out; eauto.
@@ -106,22 +111,30 @@ Lemma wr2_state s f :
   closed (fst (wr2 s f)) = closed s /\ offers (fst (wr2 s f)) = offers s.
 Proof. unfold wr2. destruct (wr s f) as [[s1 o] ok] eqn:E. simpl. eapply wr_state; eauto. Qed.
 
-(* Scan and WhoIs only ever send plain requests from our own address, and touch nothing but failn *)
-Lemma scan_go_spec c ips : forall s,
-  (forall g, In g (snd (scan_go c s ips)) -> exists ip, g = request_to c MAC_BCAST ip) /\
-  hunt (fst (scan_go c s ips)) = hunt s /\ loops (fst (scan_go c s ips)) = loops s /\
-  closed (fst (scan_go c s ips)) = closed s /\ offers (fst (scan_go c s ips)) = offers s.
+(* Scan and WhoIs only ever send plain requests from our own address, and touch nothing but failn / scans *)
+Lemma scan_check_spec c s j :
+  snd (scan_check c s j) = [] /\
+  hunt (fst (scan_check c s j)) = hunt s /\ loops (fst (scan_check c s j)) = loops s /\
+  closed (fst (scan_check c s j)) = closed s /\ offers (fst (scan_check c s j)) = offers s /\
+  rxq (fst (scan_check c s j)) = rxq s /\ failn (fst (scan_check c s j)) = failn s.
 Proof.
-  induction ips as [|ip r IH]; intros s; simpl; [repeat split; auto; intros g []|].
-  destruct ((ip =? router_ip c) || (ip =? host_ip c)); [apply IH|].
-  destruct (closed s) eqn:Hc; [simpl; repeat split; auto; intros g []|].
+  unfold scan_check. destruct (nth_error (scans s) j) as [[ips d]|]; [|simpl; repeat split; reflexivity].
+  destruct ips as [|ip r]; [simpl; repeat split; reflexivity|]. destruct d; [simpl; repeat split; reflexivity|].
+  destruct ((ip =? router_ip c) || (ip =? host_ip c)); [simpl; repeat split; reflexivity|].
+  destruct (closed s) eqn:Hc; simpl; repeat split; auto.
+Qed.
+
+Lemma scan_send_spec c s j :
+  (forall g, In g (snd (scan_send c s j)) -> exists ip, g = request_to c MAC_BCAST ip) /\
+  hunt (fst (scan_send c s j)) = hunt s /\ loops (fst (scan_send c s j)) = loops s /\
+  closed (fst (scan_send c s j)) = closed s /\ offers (fst (scan_send c s j)) = offers s /\
+  rxq (fst (scan_send c s j)) = rxq s.
+Proof.
+  unfold scan_send. destruct (nth_error (scans s) j) as [[ips d]|]; [|simpl; repeat split; auto; intros g []].
+  destruct d as [ip|]; [|simpl; repeat split; auto; intros g []].
   destruct (wr s (request_to c MAC_BCAST ip)) as [[s1 o] ok] eqn:Hw.
-  destruct (wr_state _ _ _ _ _ Hw) as [W1 [W2 [W3 W4]]].
-  destruct ok.
-  - destruct (scan_go c s1 r) as [s2 o2] eqn:Hs. destruct (IH s1) as [I0 [I1 [I2 [I3 I4]]]].
-    rewrite Hs in *. simpl in *. repeat split; try congruence.
-    intros g Hin. apply in_app_or in Hin as [Hin|Hin]; [exists ip; eapply wr_out; eauto | auto].
-  - simpl. repeat split; auto; try congruence. intros g Hin. exists ip. eapply wr_out; eauto.
+  destruct (wr_state _ _ _ _ _ Hw) as [W1 [W2 [W3 W4]]]. destruct (wr_state2 _ _ _ _ _ Hw) as [W5 W6].
+  simpl. repeat split; auto. intros g Hin. exists ip. eapply wr_out; eauto.
 Qed.
 
 Lemma whois_go_spec c ip n : forall s,
@@ -188,7 +201,7 @@ Proof. intros H. unfold set_pc. rewrite H. apply count_set_nth. exact H. Qed.
 Lemma rx_arp_cases c s p :
   rx_arp c s p = (s, []) \/
   (closed s = false /\ hunt_has (psmac p) (hunt s) = true /\ ptip p = router_ip c /\
-   rx_arp c s p = wr2 s (spoof_reply c p)) \/
+   rx_arp c s p = (set_rxq s (rxq s ++ [spoof_reply c p]), [])) \/
   (closed s = false /\ ptip p <> router_ip c /\ rx_arp c s p = wr2 s (probe_reject c p)).
 Proof.
   unfold rx_arp. destruct (closed s) eqn:Hc; auto.
@@ -208,17 +221,39 @@ Proof.
   destruct (rx_arp_cases c s p) as [E|[[_ [_ [_ E]]]|[_ [_ E]]]]; rewrite E; simpl; auto; apply wr2_state.
 Qed.
 
-(* every forged frame the receive path emits goes to a hunted MAC *)
+(* the receive path itself emits no forged frame: the spoof reply is only decided here, the probe-reject never
+   carries the router's address *)
 Lemma rx_arp_confined c s p f :
   In f (snd (rx_arp c s p)) -> forged c f = true -> hunted s (fedst f) = true.
 Proof.
   intros Hin Hf. destruct (rx_arp_cases c s p) as [E|[[_ [Hh [_ E]]]|[_ [Hne E]]]]; rewrite E in Hin.
   - contradiction.
-  - apply wr2_out in Hin. subst f. exact Hh.
+  - contradiction.
   - apply wr2_out in Hin. subst f. unfold forged, probe_reject in Hf. simpl in Hf.
     apply andb_true_iff in Hf as [Hf _]. exfalso. apply Hne. lia.
 Qed.
 
+(* a reply is queued only for a hunted MAC *)
+Lemma rx_arp_queue c s p :
+  rxq (fst (rx_arp c s p)) = rxq s \/
+  (hunted s (psmac p) = true /\ rxq (fst (rx_arp c s p)) = rxq s ++ [spoof_reply c p])%list.
+Proof.
+  destruct (rx_arp_cases c s p) as [E|[[_ [Hh [_ E]]]|[_ [_ E]]]]; rewrite E; simpl; auto.
+  left. unfold wr2. destruct (wr s (probe_reject c p)) as [[s1 o] ok] eqn:Hw. simpl.
+  apply (wr_state2 _ _ _ _ _ Hw).
+Qed.
+
+Lemma rx_reply_spec s k :
+  (forall g, In g (snd (rx_reply s k)) -> nth_error (rxq s) k = Some g) /\
+  hunt (fst (rx_reply s k)) = hunt s /\ loops (fst (rx_reply s k)) = loops s /\
+  closed (fst (rx_reply s k)) = closed s /\ offers (fst (rx_reply s k)) = offers s /\
+  rxq (fst (rx_reply s k)) = (match nth_error (rxq s) k with Some _ => remove_nth k (rxq s) | None => rxq s end).
+Proof.
+  unfold rx_reply. destruct (nth_error (rxq s) k) as [f|] eqn:Hk; [|simpl; repeat split; auto; intros g []].
+  destruct (wr s f) as [[s1 o] ok] eqn:Hw.
+  destruct (wr_state _ _ _ _ _ Hw) as [W1 [W2 [W3 W4]]]. destruct (wr_state2 _ _ _ _ _ Hw) as [W5 W6].
+  simpl. rewrite W5. repeat split; auto. intros g Hin. f_equal. symmetry. eapply wr_out; eauto.
+Qed.
 
 (* ---------------------------------------------------------------- *)
 (* raw frames: ProcessPacket is total; a frame is ignored or is exactly its decoded packet *)
@@ -294,23 +329,36 @@ Proof.
   destruct (wr s f) as [[s1 o] ok] eqn:E. destruct (wr_state _ _ _ _ _ E) as [H1 [_ [H3 _]]]. simpl. auto.
 Qed.
 
+(* events that touch neither the hunt list, the loops, closed nor the offers *)
+Definition core_event (e : event) : bool :=
+  match e with
+  | StartHunt _ | StopHunt _ | Close | Lookup _ | Check _ | Send _ | SetOffer _ _ => false
+  | _ => true
+  end.
+
+Lemma step_core c s e : core_event e = true ->
+  hunt (fst (step c s e)) = hunt s /\ loops (fst (step c s e)) = loops s /\
+  closed (fst (step c s e)) = closed s /\ offers (fst (step c s e)) = offers s.
+Proof.
+  destruct e as [a| |m| |i|i|i|p|k|et b|m o|k|ip|dst ip|ip|dst ip|dst sn tg|dst sn tg| |j|j|ip n| ];
+    try discriminate; intros _; simpl; auto.
+  - apply rx_arp_state.
+  - destruct (rx_reply_spec s k) as [_ [H1 [H2 [H3 [H4 _]]]]]; auto.
+  - destruct (rx_raw_cases c s et b) as [E|[p E]]; simpl in E; rewrite E; auto. apply rx_arp_state.
+  - apply wr2_state. - apply wr2_state. - apply wr2_state. - apply wr2_state. - apply wr2_state. - apply wr2_state.
+  - destruct (scan_check_spec c s j) as [_ [H1 [H2 [H3 [H4 _]]]]]; auto.
+  - destruct (scan_send_spec c s j) as [_ [H1 [H2 [H3 [H4 _]]]]]; auto.
+  - destruct (whois_go_spec c ip (Nat.min n 3) s) as [_ H]; exact H.
+Qed.
+
 Lemma step_hunt_closed c s e :
   match e with StartHunt _ | StopHunt _ | Close => True
   | _ => hunt (fst (step c s e)) = hunt s /\ closed (fst (step c s e)) = closed s end.
 Proof.
-  destruct e; simpl; auto.
-  - apply lookup_state. - apply check_state. - apply send_state.
-  - destruct (rx_arp_state c s p) as [H1 [_ [H3 _]]]; auto.
-  - destruct (rx_raw_cases c s ethertype payload) as [E|[p E]]; simpl in E; rewrite E; auto.
-    destruct (rx_arp_state c s p) as [H1 [_ [H3 _]]]; auto.
-  - destruct (wr2_state s (request_to c MAC_BCAST ip)) as [H1 [_ [H3 _]]]; auto.
-  - destruct (wr2_state s (request_to c dst ip)) as [H1 [_ [H3 _]]]; auto.
-  - destruct (wr2_state s (probe_frame c ip)) as [H1 [_ [H3 _]]]; auto.
-  - destruct (wr2_state s (announce_ip c dst ip)) as [H1 [_ [H3 _]]]; auto.
-  - destruct (wr2_state s (request_raw dst sender target)) as [H1 [_ [H3 _]]]; auto.
-  - destruct (wr2_state s (reply_raw dst sender target)) as [H1 [_ [H3 _]]]; auto.
-  - destruct (scan_go_spec c (scan_ips c) s) as [_ [H1 [_ [H3 _]]]]; auto.
-  - destruct (whois_go_spec c ip (Nat.min tries 3) s) as [_ [H1 [_ [H3 _]]]]; auto.
+  destruct (core_event e) eqn:Hce.
+  - destruct (step_core c s e Hce) as [H1 [_ [H3 _]]]. destruct e; auto.
+  - destruct e; try discriminate; simpl; auto.
+    + apply lookup_state. + apply check_state. + apply send_state.
 Qed.
 
 Lemma step_closed c s e : is_close e = false -> closed (fst (step c s e)) = closed s.
@@ -346,26 +394,17 @@ Lemma step_loops_shape c s e :
   (exists a, loops (fst (step c s e)) = loops s ++ [mkLoop a PTop]) \/
   loops (fst (step c s e)) = loops s.
 Proof.
-  destruct e; simpl; auto.
-  - unfold start_hunt. destruct (hunt_has _ _); simpl; eauto.
-  - unfold lookup. destruct (nth_error (loops s) i) as [lp|]; auto. destruct (lpc lp); auto; simpl;
+  destruct (core_event e) eqn:Hce.
+  - destruct (step_core c s e Hce) as [_ [H2 _]]. auto.
+  - destruct e; try discriminate; simpl; auto.
+    + unfold start_hunt. destruct (hunt_has _ _); simpl; eauto.
+    + unfold lookup. destruct (nth_error (loops s) i) as [lp|]; auto. destruct (lpc lp); auto; simpl;
+        left; eexists i, _; rewrite Nat.eqb_refl; eauto.
+    + unfold check. destruct (nth_error (loops s) i) as [lp|]; auto. destruct (lpc lp); auto; simpl.
       left; eexists i, _; rewrite Nat.eqb_refl; eauto.
-  - unfold check. destruct (nth_error (loops s) i) as [lp|]; auto. destruct (lpc lp); auto; simpl.
-    left; eexists i, _; rewrite Nat.eqb_refl; eauto.
-  - unfold send. destruct (nth_error (loops s) i) as [lp|]; auto. destruct (lpc lp); auto.
-    destruct (wr s f) as [[s1 o] ok] eqn:E. destruct (wr_state _ _ _ _ _ E) as [_ [H2 _]]. simpl.
-    left; eexists i, _; rewrite Nat.eqb_refl, H2; eauto.
-  - destruct (rx_arp_state c s p) as [_ [H2 _]]; auto.
-  - destruct (rx_raw_cases c s ethertype payload) as [E|[p E]]; simpl in E; rewrite E; auto.
-    destruct (rx_arp_state c s p) as [_ [H2 _]]; auto.
-  - destruct (wr2_state s (request_to c MAC_BCAST ip)) as [_ [H2 _]]; auto.
-  - destruct (wr2_state s (request_to c dst ip)) as [_ [H2 _]]; auto.
-  - destruct (wr2_state s (probe_frame c ip)) as [_ [H2 _]]; auto.
-  - destruct (wr2_state s (announce_ip c dst ip)) as [_ [H2 _]]; auto.
-  - destruct (wr2_state s (request_raw dst sender target)) as [_ [H2 _]]; auto.
-  - destruct (wr2_state s (reply_raw dst sender target)) as [_ [H2 _]]; auto.
-  - destruct (scan_go_spec c (scan_ips c) s) as [_ [_ [H2 _]]]; auto.
-  - destruct (whois_go_spec c ip (Nat.min tries 3) s) as [_ [_ [H2 _]]]; auto.
+    + unfold send. destruct (nth_error (loops s) i) as [lp|]; auto. destruct (lpc lp); auto.
+      destruct (wr s f) as [[s1 o] ok] eqn:E. destruct (wr_state _ _ _ _ _ E) as [_ [H2 _]]. simpl.
+      left; eexists i, _; rewrite Nat.eqb_refl, H2; eauto.
 Qed.
 
 Lemma is_loop_event_inj i j e : is_loop_event i e = true -> is_loop_event j e = true -> i = j.
@@ -399,70 +438,142 @@ Ltac apiout Hs Hin :=
   let E := fresh "E" in
   pose proof (f_equal snd Hs) as E; cbn [snd] in E; rewrite <- E in Hin; apply wr2_out in Hin; subst.
 
+(* what a non-loop, non-reply event emits is never forged unless the caller asked for it *)
+Lemma core_out_not_forged c s e f :
+  cfg_ok c -> core_event e = true -> (forall k, e <> RxReply k) -> caller_forged c e = false ->
+  In f (snd (step c s e)) -> forged c f = false.
+Proof.
+  intros Hc Hce Hnr Hcf Hin.
+  destruct e as [a| |m| |i|i|i|p|k|et b|m o|k|ip|dst ip|ip|dst ip|dst sn tg|dst sn tg| |j|j|ip n| ];
+    try discriminate; simpl in *; try contradiction.
+  - destruct (forged c f) eqn:Hf; auto. pose proof (rx_arp_confined c s p f Hin Hf).
+    destruct (rx_arp_cases c s p) as [E|[[_ [_ [_ E]]]|[_ [Hne E]]]]; rewrite E in Hin; try contradiction.
+    apply wr2_out in Hin. subst f. unfold forged, probe_reject in Hf. simpl in Hf.
+    apply andb_true_iff in Hf as [Hf _]. exfalso. apply Hne. lia.
+  - exfalso. apply (Hnr k). reflexivity.
+  - destruct (rx_raw_cases c s et b) as [E|[p E]]; simpl in E; rewrite E in Hin; [contradiction|].
+    destruct (rx_arp_cases c s p) as [E'|[[_ [_ [_ E']]]|[_ [Hne E']]]]; rewrite E' in Hin; try contradiction.
+    apply wr2_out in Hin. subst f. unfold forged, probe_reject. simpl.
+    destruct (ptip p =? router_ip c) eqn:Q; [exfalso; apply Hne; lia|reflexivity].
+  - apply wr2_out in Hin. subst f. apply request_to_not_forged; auto.
+  - apply wr2_out in Hin. subst f. apply request_to_not_forged; auto.
+  - apply wr2_out in Hin. subst f. apply probe_frame_not_forged; auto.
+  - apply wr2_out in Hin. subst f. unfold forged, announce_ip. simpl. rewrite Hcf. reflexivity.
+  - apply wr2_out in Hin. subst f. exact Hcf.
+  - apply wr2_out in Hin. subst f. exact Hcf.
+  - destruct (scan_check_spec c s j) as [E _]. rewrite E in Hin. contradiction.
+  - destruct (scan_send_spec c s j) as [H0 _]. destruct (H0 f Hin) as [ip ->]. apply request_to_not_forged; auto.
+  - destruct (whois_go_spec c ip (Nat.min n 3) s) as [H0 _]. rewrite (H0 f Hin). apply request_to_not_forged; auto.
+Qed.
+
 Theorem confined_step : forall c s e s' out f,
   cfg_ok c -> step c s e = (s', out) -> In f out -> forged c f = true ->
   caller_forged c e = true \/
   hunted s (fedst f) = true \/
-  (exists i lp, e = Send i /\ nth_error (loops s) i = Some lp /\ armed_pc c (fedst f) (lpc lp) = true).
+  (exists i lp, e = Send i /\ nth_error (loops s) i = Some lp /\ armed_pc c (fedst f) (lpc lp) = true) \/
+  (exists k, e = RxReply k /\ nth_error (rxq s) k = Some f).
 Proof.
   intros c s e s' out f Hc Hs Hin Hf.
-  destruct e; simpl in Hs; simpl caller_forged.
-  - unfold start_hunt in Hs. destruct (hunt_has _ _); inversion Hs; subst; contradiction.
-  - inversion Hs; subst; contradiction.
-  - inversion Hs; subst; contradiction.
-  - inversion Hs; subst; contradiction.
-  - unfold lookup in Hs. destruct (nth_error _ _) as [lp|]; [destruct (lpc lp)|]; inversion Hs; subst; contradiction.
-  - unfold check in Hs. destruct (nth_error _ _) as [lp|]; [destruct (lpc lp)|]; inversion Hs; subst; contradiction.
-  - destruct (send_out _ _ _ _ _ Hs Hin) as [lp [cont [Hl Hp]]].
-    right; right. exists i, lp. repeat split; auto. rewrite Hp. simpl. rewrite Hf, N.eqb_refl. reflexivity.
-  - right; left. apply (rx_arp_confined c s p f); auto. rewrite Hs. exact Hin.
-  - destruct (rx_raw_cases c s ethertype payload) as [E|[p E]]; simpl in E; rewrite E in Hs.
+  destruct (caller_forged c e) eqn:Hcf; [left; reflexivity|].
+  destruct (core_event e) eqn:Hce.
+  - destruct e as [a| |m| |i|i|i|p|k|et b|m o|k|ip|dst ip|ip|dst ip|dst sn tg|dst sn tg| |j|j|ip n| ];
+      try discriminate;
+      try (exfalso;
+           match type of Hs with step _ _ ?ev = _ =>
+             assert (Hnf : forged c f = false)
+               by (apply (core_out_not_forged c s ev f Hc eq_refl); [intros k0; discriminate|exact Hcf|rewrite Hs; exact Hin])
+           end; congruence).
+    right; right; right. exists k. split; auto.
+    destruct (rx_reply_spec s k) as [H0 _]. simpl in Hs. rewrite Hs in H0. apply H0. exact Hin.
+  - destruct e; try discriminate; simpl in Hs.
+    + unfold start_hunt in Hs. destruct (hunt_has _ _); inversion Hs; subst; contradiction.
     + inversion Hs; subst; contradiction.
-    + right; left. apply (rx_arp_confined c s p f); auto. rewrite Hs. exact Hin.
-  - inversion Hs; subst; contradiction.
-  - inversion Hs; subst; contradiction.
-  - apiout Hs Hin.
-    rewrite request_to_not_forged in Hf by auto. discriminate.
-  - apiout Hs Hin.
-    rewrite request_to_not_forged in Hf by auto. discriminate.
-  - apiout Hs Hin.
-    rewrite probe_frame_not_forged in Hf by auto. discriminate.
-  - apiout Hs Hin.
-    left. unfold forged, announce_ip in Hf. simpl in Hf. apply andb_true_iff in Hf. tauto.
-  - apiout Hs Hin. left. exact Hf.
-  - apiout Hs Hin. left. exact Hf.
-  - destruct (scan_go_spec c (scan_ips c) s) as [H0 _]. rewrite Hs in H0. destruct (H0 f Hin) as [ip ->].
-    rewrite request_to_not_forged in Hf by auto. discriminate.
-  - destruct (whois_go_spec c ip (Nat.min tries 3) s) as [H0 _]. rewrite Hs in H0. rewrite (H0 f Hin) in Hf.
-    rewrite request_to_not_forged in Hf by auto. discriminate.
+    + inversion Hs; subst; contradiction.
+    + unfold lookup in Hs. destruct (nth_error _ _) as [lp|]; [destruct (lpc lp)|]; inversion Hs; subst; contradiction.
+    + unfold check in Hs. destruct (nth_error _ _) as [lp|]; [destruct (lpc lp)|]; inversion Hs; subst; contradiction.
+    + destruct (send_out _ _ _ _ _ Hs Hin) as [lp [cont [Hl Hp]]].
+      right; right; left. exists i, lp. repeat split; auto. rewrite Hp. simpl. rewrite Hf, N.eqb_refl. reflexivity.
+    + inversion Hs; subst; contradiction.
 Qed.
 
-(* which public calls can forge at all, and exactly when *)
+(* which public calls can forge at all, and exactly when: for every argument, usable or not *)
 Theorem api_forges_iff : forall c s e f,
   cfg_ok c -> is_api_send e = true -> In f (snd (step c s e)) ->
   (forged c f = true <-> caller_forged c e = true).
 Proof.
   intros c s e f Hc Ha Hin. split.
-  - intros Hf. destruct (step c s e) as [s' out] eqn:Hs.
-    destruct (confined_step c s e s' out f Hc Hs Hin Hf) as [H|[H|[i [lp [H _]]]]]; auto.
-    + destruct e; try discriminate; simpl in *.
-      * apiout Hs Hin.
-        rewrite request_to_not_forged in Hf by auto. discriminate.
-      * apiout Hs Hin.
-        rewrite request_to_not_forged in Hf by auto. discriminate.
-      * apiout Hs Hin.
-        rewrite probe_frame_not_forged in Hf by auto. discriminate.
-      * apiout Hs Hin.
-        unfold forged, announce_ip in Hf. simpl in Hf. apply andb_true_iff in Hf. tauto.
-      * apiout Hs Hin. exact Hf.
-      * apiout Hs Hin. exact Hf.
-      * destruct (scan_go_spec c (scan_ips c) s) as [H0 _]. rewrite Hs in H0. destruct (H0 f Hin) as [ip ->].
-        rewrite request_to_not_forged in Hf by auto. discriminate.
-      * destruct (whois_go_spec c ip (Nat.min tries 3) s) as [H0 _]. rewrite Hs in H0. rewrite (H0 f Hin) in Hf.
-        rewrite request_to_not_forged in Hf by auto. discriminate.
-    + subst e. discriminate.
+  - intros Hf. destruct (caller_forged c e) eqn:Hcf; auto.
+    assert (Hce : core_event e = true) by (destruct e; try discriminate; reflexivity).
+    assert (Hnr : forall k, e <> RxReply k) by (intros k ->; discriminate).
+    rewrite (core_out_not_forged c s e f Hc Hce Hnr Hcf Hin) in Hf. discriminate.
   - intros Hcf. destruct e; try discriminate; simpl in *.
     + apply wr2_out in Hin. subst f. unfold forged, announce_ip. simpl. rewrite Hcf, N.eqb_refl. reflexivity.
     + apply wr2_out in Hin. subst f. exact Hcf.
     + apply wr2_out in Hin. subst f. exact Hcf.
+Qed.
+
+(* unusable arguments: the call fails and nothing at all is written *)
+Theorem api_invalid_silent : forall c s, step c s ApiInvalid = (s, []).
+Proof. reflexivity. Qed.
+
+(* ---------------------------------------------------------------- *)
+(* the two queues: replies in flight and scans *)
+
+Lemma whois_go_aux c ip n : forall s,
+  rxq (fst (whois_go c s ip n)) = rxq s /\ scans (fst (whois_go c s ip n)) = scans s.
+Proof.
+  induction n as [|n IH]; intros s; simpl; auto.
+  destruct (wr s (request_to c MAC_BCAST ip)) as [[s1 o] ok] eqn:Hw.
+  destruct (wr_state2 _ _ _ _ _ Hw) as [W1 W2]. destruct ok; simpl; auto.
+  destruct (IH s1) as [I1 I2]. destruct (whois_go c s1 ip n). simpl in *. split; congruence.
+Qed.
+
+Lemma wr2_aux s f : rxq (fst (wr2 s f)) = rxq s /\ scans (fst (wr2 s f)) = scans s.
+Proof. unfold wr2. destruct (wr s f) as [[s1 o] ok] eqn:E. simpl. eapply wr_state2; eauto. Qed.
+
+Lemma rx_arp_scans c s p : scans (fst (rx_arp c s p)) = scans s.
+Proof.
+  destruct (rx_arp_cases c s p) as [E|[[_ [_ [_ E]]]|[_ [_ E]]]]; rewrite E; simpl; auto. apply wr2_aux.
+Qed.
+
+Ltac loop_cases s :=
+  first [ unfold start_hunt; destruct (hunt_has _ _); solve [auto]
+        | unfold lookup; destruct (nth_error (loops s) _) as [lp|]; auto; destruct (lpc lp); solve [auto]
+        | unfold check; destruct (nth_error (loops s) _) as [lp|]; auto; destruct (lpc lp); solve [auto]
+        | unfold send; destruct (nth_error (loops s) _) as [lp|]; auto; destruct (lpc lp) as [| |f cont| |]; auto;
+          destruct (wr s f) as [[s1 o] ok] eqn:E; destruct (wr_state2 _ _ _ _ _ E) as [H1 H2]; simpl; solve [auto] ].
+
+Lemma step_rxq c s e :
+  match e with RxArp _ | RxRaw _ _ | RxReply _ => True | _ => rxq (fst (step c s e)) = rxq s end.
+Proof.
+  destruct e as [a| |m| |i|i|i|p|k|et b|m o|k|ip|dst ip|ip|dst ip|dst sn tg|dst sn tg| |j|j|ip n| ]; simpl; auto;
+    try apply wr2_aux; try apply whois_go_aux; try loop_cases s.
+  - destruct (scan_check_spec c s j) as [_ [_ [_ [_ [_ [H _]]]]]]. exact H.
+  - destruct (scan_send_spec c s j) as [_ [_ [_ [_ [_ H]]]]]. exact H.
+Qed.
+
+Lemma step_scans c s e :
+  match e with ApiScan | ScanCheck _ | ScanSend _ => True | _ => scans (fst (step c s e)) = scans s end.
+Proof.
+  destruct e as [a| |m| |i|i|i|p|k|et b|m o|k|ip|dst ip|ip|dst ip|dst sn tg|dst sn tg| |j|j|ip n| ]; simpl; auto;
+    try apply wr2_aux; try apply whois_go_aux; try loop_cases s.
+  - apply rx_arp_scans.
+  - unfold rx_reply. destruct (nth_error (rxq s) k); auto.
+    destruct (wr s f) as [[s1 o] ok] eqn:E. destruct (wr_state2 _ _ _ _ _ E) as [_ H2]. simpl. auto.
+  - destruct (rx_raw_cases c s et b) as [E|[p E]]; simpl in E; rewrite E; auto. apply rx_arp_scans.
+Qed.
+
+Lemma count_remove_nth {A} (P : A -> bool) l k x :
+  nth_error l k = Some x -> (count P (remove_nth k l) + b2n (P x) = count P l)%nat.
+Proof.
+  unfold count, remove_nth. revert k. induction l as [|y ys IH]; intros [|k] H; simpl in *; try discriminate.
+  - inversion H; subst. destruct (P x); simpl; lia.
+  - specialize (IH k H). destruct (P y); simpl in *; lia.
+Qed.
+
+Lemma length_remove_nth {A} (l : list A) k x :
+  nth_error l k = Some x -> S (List.length (remove_nth k l)) = List.length l.
+Proof.
+  unfold remove_nth. revert k. induction l as [|y ys IH]; intros [|k] H; simpl in *; try discriminate; auto.
+  all: try (f_equal; apply IH; auto).
 Qed.
